@@ -232,3 +232,40 @@ Definition res_same (r r' : (xres (Z * list Z * symtab))) : bool :=
   | _, _ => true
   end.
 
+
+(* ---- relocation: a class of programs whose only base-dependent values are labels, used bare ------------------ *)
+Definition is_sym (e : expr) : bool := match e with Sym _ => true | _ => false end.
+(* an absolute value: a number, or a label (moves with the base) *)
+Definition re_abs (e : expr) : bool := closed e || is_sym e.
+
+Definition reloc_opnd (o : aoperand) : bool :=
+  match o with
+  | AReg r | ARegDef r | AAutoInc r | AAutoIncDef r | AAutoDec r | AAutoDecDef r => closed r
+  | AIndex x r | AIndexDef x r => closed x && closed r
+  | AImm e | AAbs e => re_abs e
+  | ARel e | ARelDef e => is_sym e          (* relative operands and branch targets: labels only *)
+  | AAcc _ => true
+  end.
+
+(* mnemonics whose operand is an inline number, not an address *)
+Definition inline_num (m : string) : bool :=
+  existsb (String.eqb m) ["emt"; "trap"; "sys"; "mark"; "spl"; "xfc"].
+
+Definition reloc_stmt (s : stmt) : bool :=
+  match s with
+  | Label _ | LocalLabel _ | Even | Odd | Insert _ | NoOp => true
+  | Insn m ops =>
+      if inline_num m then forallb (fun o => match o with ARel e => closed e | _ => false end) ops
+      else forallb reloc_opnd ops
+  | Byte es | Dword es => forallb closed es
+  | Word es | WordList es => forallb re_abs es
+  | Blkb e | Blkw e => closed e
+  | Ascii _ cs | Rad50 cs => forallb (fun c => match c with CStr _ => true | CCode e => closed e end) cs
+  | _ => false
+  end.
+
+Definition reloc_ok (rest : program) : bool := forallb reloc_stmt rest.
+
+(* the program at base b *)
+Definition at_base (b : Z) (rest : program) : program :=
+  Link (Lit (LNum false SBareOct false false (Z.to_N b))) :: rest.
